@@ -211,6 +211,24 @@ def check_cores_and_threads(cores: int = 1, threads_per_core: int = 1) -> None:
         )
 
 
+def check_resource_dict_keys(resource_dict: dict, spawner: type) -> None:
+    """
+    Check that every key of the resource dictionary is understood by the executor or by the class which spawns the
+    python processes - an unknown key would otherwise raise a TypeError in the thread which starts the process.
+    """
+    supported = set(inspect.signature(spawner.__init__).parameters) - {"self"}
+    supported.update(["cores", "cache_directory", "hostname_localhost", "init_function"])
+    unsupported = [key for key in resource_dict if key not in supported]
+    if len(unsupported) > 0:
+        raise ValueError(
+            "The resource_dict keys "
+            + str(unsupported)
+            + " are not supported by "
+            + spawner.__name__
+            + "."
+        )
+
+
 def check_file_exists(file_name: str):
     if file_name is None:
         raise ValueError("file_name is not set.")
